@@ -1,6 +1,7 @@
 (** C03 — nothing executes unless the operation passed parsing, validation and every gate; hooks run in
     lifecycle order with the first-registered extension outermost. *)
 From GV Require Import Base.Prelude Model.Pipeline Proofs.PipelineProofs.
+From GV Require Import Base.Threads Model.RuleSwap Proofs.RuleSwapProofs.
 From Coq Require Import Sorted.
 Open Scope list_scope.
 
@@ -69,3 +70,45 @@ Example C03_nonvacuous :
      EvRootExit 1 "a"; EvRespExit 0]
   /\ s_events (snd (serve docs exts (empty_qcache MapCache) (req 1%nat))) = [EvParam 0; EvRespEnter 0; EvRespExit 0].
 Proof. vm_compute. split; reflexivity. Qed.
+
+(** ** "... with suggestions disabled, and under concurrent requests": gqlparser's rule set is one variable of the
+    process, and an executor with suggestions disabled swaps a rule in it before validating (Model.RuleSwap).  With
+    the swap under the write half and every validation under the read half of one lock, for ANY number of requests
+    of executors with and without suggestions and over EVERY interleaving of their steps (lock, the read and the
+    write of RemoveRule, the read and the write of ReplaceRule, unlock, lock, Validate's read, unlock): *)
+
+(** every request gets the verdict validation gives it alone - a document that fails validation is refused *)
+Theorem C03_concurrent_validation_as_alone : forall reqs tr s,
+  qrun true (qinit reqs) tr = Some s ->
+  Forall2 (fun r v => v = None \/ v = Some (alone (snd r))) reqs (verdicts s).
+Proof. exact concurrent_verdicts_lemma. Qed.
+Print Assumptions C03_concurrent_validation_as_alone.
+
+(** and the lock never blocks the requests for good *)
+Theorem C03_concurrent_validation_progress : forall reqs tr s,
+  qrun true (qinit reqs) tr = Some s ->
+  (exists i t, nth_error (g_thr s) i = Some t /\ qdone t = false) -> exists j, qstep true s j <> None.
+Proof. exact concurrent_progress_lemma. Qed.
+Print Assumptions C03_concurrent_validation_progress.
+
+(** The pinned commit swapped and validated without a lock: among the first requests of a process a document
+    selecting a field that does not exist passes validation - the second request's swap is undone by the first
+    request's RemoveRule writing back the copy it read earlier (found by the concurrent-requests check, repaired). *)
+Theorem C03_unlocked_rule_swap_refuted :
+  exists s, (qrun false (qinit [(true, DValid); (true, DUnknownField)]) [0; 0; 1; 1; 1; 1; 1; 1; 0; 1; 1] = Some s /\
+             nth_error (verdicts s) 1 = Some (Some false))%nat.
+Proof. exact unlocked_swap_lost_update_witness. Qed.
+Print Assumptions C03_unlocked_rule_swap_refuted.
+
+(** ... and an executor with suggestions enabled validates while another executor's swap is half done *)
+Theorem C03_unlocked_rule_swap_window_refuted :
+  exists s, (qrun false (qinit [(true, DValid); (false, DUnknownField)]) [0; 0; 0; 1; 1] = Some s /\
+             nth_error (verdicts s) 1 = Some (Some false))%nat.
+Proof. exact unlocked_swap_window_witness. Qed.
+Print Assumptions C03_unlocked_rule_swap_window_refuted.
+
+Example C03_concurrent_nonvacuous :
+  exists s, (qrun true (qinit [(true, DValid); (true, DUnknownField); (false, DOtherInvalid)])
+               [0; 0; 0; 0; 0; 0; 0; 0; 2; 2; 2; 0; 1; 1; 1; 1; 1; 1; 1; 1; 1] = Some s /\
+             verdicts s = [Some false; Some true; Some true] /\ forallb qdone (g_thr s) = true)%nat.
+Proof. exact locked_swap_runs. Qed.
